@@ -160,3 +160,16 @@ Definition scope_ok (g g' : graph) (mo ms : list (N * N)) (e : N * N) : bool :=
 Definition iso_check (g g' : graph) (mo ms : list (N * N)) (mn : N -> N) : bool :=
   nodupN (map fst mo) && nodupN (map snd mo) && nodupN (map fst ms) && nodupN (map snd ms)
   && forallb (obj_ok g g' mo ms mn) mo && forallb (scope_ok g g' mo ms) ms.
+
+(* ---- well-formed source graphs: every reference is to an object / scope of the graph ---------- *)
+Definition is_some {A} (o : option A) : bool := match o with Some _ => true | None => false end.
+
+Definition ref_closedb (g : graph) (r : ref) : bool :=
+  match r with RScope s => negb (N.eqb s 0) && is_some (nget (g_scopes g) s) | _ => true end.
+
+Definition wf_srcb (g : graph) : bool :=
+  forallb (fun e : N * obj => ref_closedb g (o_decl (snd e)) && ref_closedb g (o_data (snd e))) (g_objs g)
+  && forallb (fun e : N * scope =>
+                (match s_outer (snd e) with Some u => negb (N.eqb u 0) && is_some (nget (g_scopes g) u) | None => true end)
+                && forallb (fun m : string * N => negb (N.eqb (snd m) 0) && is_some (nget (g_objs g) (snd m))) (s_objs (snd e)))
+             (g_scopes g).
